@@ -39,7 +39,7 @@ CHECKS = {
             "DESIGN.md section 5 C06"),
     "C07": (True, "exploration",
             "differential runtime check: two fresh instances with the same seed driven through the same call history, compared at every call; prefix consistency across iteration budgets; real vs virtual time",
-            "6 000 / 400 000 call histories (30 % with scripted samples full of duplicates) (incl. repeated solve, re-setup, solve before setup, PRM set_problem_definition and re-construction, goal samplers that consume the generator) are executed twice and compared bit for bit (paths), by variant (errors) and by snapshot hash; plus prefix pairs (node states, final parent links, roadmap links among common milestones), clock-pacing pairs (the same number of iterations with the elapsed time distributed uniformly / front-loaded / back-loaded: results, trees and roadmaps must be identical) and real-time runs.",
+            "6 000 / 400 000 call histories (30 % with scripted samples full of duplicates) (incl. repeated solve, re-setup, solve before setup, PRM set_problem_definition and re-construction, goal samplers that consume the generator) are executed twice and compared bit for bit (paths), by variant (errors) and by snapshot hash; plus prefix pairs (node states, final parent links, roadmap links among common milestones), clock-pacing pairs (the same number of iterations with the elapsed time distributed uniformly / front-loaded / back-loaded: results, trees and roadmaps must be identical), callback-latency pairs (240 / 16 000 histories run once with a validity checker that answers at once and once with one that takes 1 ms of real time for the first 40 queries of every public call, setup included: results and snapshots must be identical) and real-time runs.",
             "Trusted: deterministic harness callbacks; both instances share a thread so thread-local / OS entropy shows up as a difference.",
             "DESIGN.md section 5 C07"),
     "C08": (True, "fault_enumeration",
@@ -54,7 +54,7 @@ CHECKS = {
             "DESIGN.md section 5 C15"),
     "C16": (True, "exploration",
             "transition monitor over consecutive snapshots + the logged sample of each single-stepped iteration; Hoeffding bound on goal-sample frequency",
-            "Each observed transition is checked against the nearest-node / one-step rule (ties existential), at most one node per tree, rejection only after a rejected query, RRT-Connect balance / connect / termination rules; whole solve calls of 8-68 iterations must be explainable node by node (insertion order) by the samples they drew (existential; covers state carried between iterations of one call); goal-bias frequencies over 24 / 96 long seeded runs (biases 0, 0.004, 0.05, 0.3, 0.5, 0.9, 0.996, 1; Hoeffding plus a multiplicative Chernoff bound for the rare outcome) (half of them with the public goal_bias field changed after setup) against Hoeffding at alpha 1e-9.",
+            "Each observed transition is checked against the nearest-node / one-step rule (ties existential), at most one node per tree, rejection only after a rejected query, RRT-Connect balance / connect / termination rules; whole solve calls of 8-68 iterations must be explainable node by node (insertion order) by the samples they drew (existential; covers state carried between iterations of one call); goal-bias frequencies over 24 / 96 long seeded runs (biases 0, 0.004, 0.05, 0.3, 0.5, 0.9, 0.996, 1; Hoeffding plus a multiplicative Chernoff bound for the rare outcome) (half of them with the public goal_bias field changed after setup) against Hoeffding at alpha 1e-9; the absolute settings (bias 0: never a goal sample, bias 1: never a uniform one) are also run for 16 x 20 million / 64 x 60 million iterations of RRT and RRT* in a world where only the start state is valid.",
             "Trusted: tolerances of DESIGN.md section 3.",
             "DESIGN.md section 5 C16"),
     "C17": (True, "exploration",
@@ -89,7 +89,7 @@ CHECKS = {
             "DESIGN.md section 5 C12"),
     "C13": (True, "exploration",
             "differential runtime check: every compound / SE2 / SE3 operation against the same operation carried out on typed component spaces",
-            "Compound distance, interpolation, enforce, satisfies, sampling and resolution are compared - bit for bit except for the 1e-12 relative distance law (plain or overflow-safe accumulation) and sampling (bit-exact under some order of component draws, else statistically: bounds + two-sample KS of every marginal) - with the typed component spaces for all ordered layouts of 1-2 components (quick) / 1-4 components (thorough, 2800 layouts), after the public weights were changed, and SE2/SE3 against the explicit compound with weights (1,w) incl. yaw intervals at least a full turn wide and non-unit quaternions; also through the erased interface; the thorough tier adds a Miri run.",
+            "Compound distance, interpolation, enforce, satisfies, sampling and resolution are compared - bit for bit except for the 1e-12 relative distance law (plain or overflow-safe accumulation) and sampling (bit-exact under some order of component draws, else statistically: bounds + two-sample KS of every marginal) - with the typed component spaces for all ordered layouts of 1-2 components (quick) / 1-4 components (thorough, 2800 layouts), after the public weights were changed, and SE2/SE3 against the explicit compound with weights (1,w) incl. yaw intervals at least a full turn wide and non-unit quaternions; also through the erased interface; nested layouts (compounds whose components are compounds, SE2 or SE3 spaces, up to three levels deep: 47 quick / 607 thorough) are judged by the same law at every group; the thorough tier adds a Miri run.",
             "Trusted: component operations (judged by C09-C12).",
             "DESIGN.md section 5 C13"),
     "C14": (True, "exploration",
